@@ -232,7 +232,7 @@ func (c *FnCtx) evalCall(st *State, call *ast.CallExpr) []Term {
 				_, haveIsPtr := recv.T.Underlying().(*types.Pointer)
 				if !recvIsPtr && haveIsPtr {
 					if _, isIface := rt.Underlying().(*types.Interface); !isIface {
-						if nn, _, _ := derefNamedStruct(recv.T); nn != nil && !c.e.d.modelled(nn) && !c.e.typedRefs {
+						if nn, _, _ := derefNamedStruct(recv.T); nn != nil && !c.e.d.modelled(nn) && !c.typedRefs() {
 							// (packages that declare `typedrefs` take the other branch: p.M() reads the value p points at,
 							// exactly like an explicit (*p).M(), so &x / *p / p.M() agree on one cell)
 							// opaque dependency struct: a value-receiver method called through the pointer sees
@@ -358,6 +358,12 @@ func (c *FnCtx) applyContract(st *State, fc *FuncContract, sig *types.Signature,
 	pre := st.clone()
 	sc := &SpecCtx{c: c, pkg: pkg, env: env, st: st, old: pre}
 	for i, r := range fc.Requires {
+		if r.Inv && c.crossPackage(key) {
+			// object invariant of another package: its state is unexported, so nothing here can have broken it
+			st.assume(sc.eval(r.E).S)
+			c.e.trusted["object invariant of "+shortFn(key)+" assumed at a call from another package (established and preserved inside its own package: checked there; unexported state)"] = true
+			continue
+		}
 		for _, cj := range sc.evalConjuncts(r.E, "") {
 			c.oblige(st, "pre", fmt.Sprintf("%s/requires%d%s", short, i+1, cj.Path), pos, cj.Term.S, "precondition of "+key+": "+cj.Src)
 			st.assume(cj.Term.S)
@@ -788,6 +794,10 @@ func (c *FnCtx) chanEvent(st *State, kind string, ch Term, v Term, pos token.Pos
 		sc := &SpecCtx{c: c, pkg: c.fi.Pkg, env: env, st: st, old: c.entry}
 		for i, r := range os.Requires {
 			g := sc.eval(r.E)
+			if r.Inv {
+				st.assume(g.S) // `assume`: a guard of the event, not an obligation
+				continue
+			}
 			c.oblige(st, "chan-"+kind, fmt.Sprintf("requires%d", i+1), pos, g.S, "channel "+kind+" protocol: "+r.Src)
 			st.assume(g.S)
 		}
